@@ -651,13 +651,19 @@ class Machine:
                 # opaque discriminant: fork, recording the choice
                 outs = []
                 seen_t = set()
+                feas = None
+                if d[0] == "discr" and getattr(self, "variant_oracle", None) is not None:
+                    # which variants the producer of this value can hand out at all (its own analysis, per instance)
+                    feas = self.variant_oracle(self, d[1])
                 for val, tg in t["arms"]:
+                    if feas is not None and int(val) not in feas:
+                        continue
                     s2 = s.clone()
                     s2.frames[-1].bb = tg
                     s2.pc = s.pc + ((d, int(val)),)
                     outs.append(s2)
                 ob = fr.body.blocks[t["otherwise"]]
-                if not (ob["term"]["k"] == "unreachable" and not ob["stmts"]):
+                if not (ob["term"]["k"] == "unreachable" and not ob["stmts"]) and not (feas is not None and feas <= {int(v) for v, _ in t["arms"]}):
                     # (an `unreachable` default is the compiler's statement that the arms are exhaustive)
                     s2 = s.clone()
                     s2.frames[-1].bb = t["otherwise"]
